@@ -168,6 +168,20 @@ impl VecDesc {
                 self.with_count(&mut b, n + 1);
                 out.push((format!("{}.duplicated", self.name), b));
             }
+            // map: one entry moved to another key, keeping the keys strictly increasing (so it still decodes)
+            if self.keyed {
+                for i in 0..n {
+                    let k = bytes[self.elems[i].0];
+                    let prev = if i == 0 { None } else { Some(bytes[self.elems[i - 1].0]) };
+                    let next = if i + 1 == n { None } else { Some(bytes[self.elems[i + 1].0]) };
+                    let up = k < 255 && next.map_or(true, |x| x > k + 1);
+                    let down = k > 0 && prev.map_or(true, |x| x < k - 1);
+                    let nk = if up { k + 1 } else if down { k - 1 } else { continue };
+                    let mut b = bytes.to_vec();
+                    b[self.elems[i].0] = nk;
+                    out.push((format!("{}.rekeyed", self.name), b));
+                }
+            }
             // count says one more than there is (trailing data missing) / one fewer (trailing garbage)
             let mut b = bytes.to_vec();
             self.with_count(&mut b, n + 1);
